@@ -5,6 +5,7 @@ import LanceModel.C27.StackLemmas
 import LanceModel.C27.GenStack
 import LanceModel.C27.CountLemmas
 import LanceModel.C27.NoDef
+import LanceModel.C27.SliceLemmas
 /-!
 # C27 — repetition / definition levels encode nesting losslessly
 
@@ -212,6 +213,17 @@ theorem max_visible_level_meaning (ms : List Meaning) :
   maxVisibleLevel_eq ms
 
 example : maxVisibleLevel [.nullableItem, .nullableItem, .nullableAndEmptyableList, .nullableItem] = some 2 := by decide
+
+/-- **`RepDefSlicer::slice_next`**: when the scan hands out `n` levels for `k` requested values, these levels exist
+    and exactly `k` of them are visible (`<= max_visible_level`, which by `max_visible_level_meaning` is the number of
+    def levels below the first list, i.e. the entries that carry a value) — the "levels per chunk = values per chunk"
+    invariant, relative to `max_visible_level`.  (That a level is `<= max_visible_level` exactly when its entry is a
+    leaf item of the serialised stack is checked by the slicer oracle of the run, not proved.) -/
+theorem slice_next_exact (mvl : Nat) (ds : List Nat) (k n : Nat) (h : sliceScan mvl ds k = some n) :
+    n ≤ ds.length ∧ (ds.take n).countP (fun d => decide (d ≤ mvl)) = k :=
+  sliceScan_exact mvl ds k n h
+
+example : sliceScan 1 [0, 1, 2, 0, 3, 0] 3 = some 4 := by decide
 
 /-! ## Part 3: control words -/
 
